@@ -42,7 +42,7 @@ def main():
                         "kind_free_text": "C++ harness over the working tree vs compiled Lean model, same op lines"})
     man = {
         "version": 1,
-        "setup_cmd": "cd lean && lake build && lake build driver",
+        "setup_cmd": "cd lean && lake build RtoscModel " + " ".join("drv_" + e["name"] for e in engines),
         "hooks": {"guard": "RTOSC_VERIF", "enable": "harnesses compile /repo/src and /repo/include directly with -DRTOSC_VERIF (no guarded source hook exists at this commit; see DESIGN.md 2.8)",
                   "baseline_off_cmd": "cmake -G Ninja -B /repo/_build -S /repo && cmake --build /repo/_build && ctest --test-dir /repo/_build -j8 --timeout 900",
                   "source_commits": [], "add_only": True},
